@@ -3,6 +3,7 @@
 set -e
 cd "$(dirname "$0")/harness"
 export CARGO_NET_OFFLINE=true
+ln -sfn "${TCHERAN_REPO:-/repo}" repo_link
 cp -n /repo/Cargo.lock Cargo.lock 2>/dev/null || true
 cargo build --offline --quiet
 cargo build --offline --quiet --profile opt
